@@ -207,6 +207,7 @@ _ADD7 = {
  "C10": "; callbacks that panic: every subset of three tasks due in one tick panics, every key (of that tick and of later ticks, on 2 and 5 slots) is still handed to the execute function exactly once",
  "C11": "; bodies returning the package's own sentinel errors (ErrNotFound, a wrapped ErrNotFound, sql.ErrTxDone, context.Canceled): rolled back and handed back like any other error",
  "C12": "; BITPOS/BITCOUNT with end = -1 for bit 0 and 1 on an all-ones value, a mixed value and an absent key (an explicit end is not the same command as no end)",
+ "C17": "; caches with an expiry of one second (shorter than the wheel tick after jitter): right after every Set, with no tick since, the key reads the value just set",
  "C13": "; membership changes of different nodes running at the same time as each other and as lookups (schedule search with data-race-directed points): every lookup returns what some membership reachable by a subset of the changes assigns, the final ring equals the sequentially built one",
 }
 for _k, _v in _ADD7.items():
